@@ -1,26 +1,40 @@
 # C13 spec (see tools/props.py)
 SPEC = {
         "ready": True,
-        "sources": ["c13.cpp", "c13_xform.cpp", "c13_closest.cpp",
+        "sources": ["c13.cpp", "c13_xform.cpp", "c13_xform_int.cpp", "c13_closest.cpp", "c13_closest_half.cpp",
+                    "c13_sets_half.cpp", "c13_hist_half.cpp", "c13_ext_int.cpp", "c13_ext_fp.cpp", "c13_ext_half.cpp",
                     "c13_sets_short.cpp", "c13_sets_int.cpp", "c13_sets_int64.cpp", "c13_sets_float.cpp", "c13_sets_double.cpp",
                     "c13_hist_short.cpp", "c13_hist_int.cpp", "c13_hist_int64.cpp", "c13_hist_float.cpp", "c13_hist_double.cpp"],
-        "lib": [],
+        "lib": ["half.cpp"],
         "technique": "exhaustive small-scope enumeration (every lattice box incl. inverted x every lattice point / box pair) against a bitset-of-points oracle, "
+                     "exhaustive enumeration of boxes whose bounds sit at the ends of the element type's range against per-axis predicates on exact wide values, "
                      "explicit-state BFS over extendBy histories on the real objects, exact integer/rational corner images for the four transform overloads",
         "level_text": "Every Box/Interval over the coordinates {0..3} per axis (inverted ones included) and the canonical empty/infinite boxes, for the element types "
-                      "short/int/int64/float/double and for Interval, Box<Vec2>, Box<Vec3>, Box<Vec4> and the generic Box template instantiated in 2-D/3-D through a harness "
-                      "vector type, is run through every query against the set of lattice points it contains; extendBy(point)/extendBy(box) histories are explored breadth-first "
-                      "on the real objects until no new state appears (so all history lengths are covered for the alphabet); clip/closestPoint* are compared with the exact nearest "
-                      "point; transform/affineTransform (4 overloads, out-parameter forms pre-filled) are compared with the exact images of the 8 corners.",
-        "level_note": "Bounded scope: coordinates are small integers (exactly representable in every element type), so rounding inside Box itself is not exercised; transforms are "
-                      "checked for integer affine matrices (exact) and small-integer projective matrices with w>0 on the box (2 ulp). extendBy minimality is asserted from "
-                      "default/makeEmpty/non-inverted boxes with non-inverted or canonical-empty arguments only.",
-        "deadline": {"quick": 200, "thorough": 850},
-        "rule": "exhaustive: all 16^D (min,max) boxes x all 6^D points, all ordered box pairs, BFS over extendBy to a fixpoint, all listed matrices x 1000 boxes; non-trivial = by a "
-                "predicate on the input the box is inverted / flat / a single point / canonical empty or infinite, the pair has an inverted operand or touches only on the boundary or "
-                "overlaps, majorAxis has a tie, the extendBy step starts from the empty set / lowers min / raises max / has an empty argument, the point is outside / on the boundary "
-                "(clip, closestPointOnBox: strictly inside, on the surface, equidistant faces, empty box), the matrix block is zero/sparse/full or has a negative entry (Arvo's a>=b "
-                "branch), the matrix is projective, the input box is empty or infinite ('.generic' classes excluded)",
+                      "short/int/int64/float/double/half and for Interval, Box<Vec2>, Box<Vec3>, Box<Vec4> and the generic Box template instantiated in 2-D/3-D through a harness "
+                      "vector type, is run through every query against the set of lattice points it contains; every box whose per-axis (min,max) is one of (LOWEST,MAX), (LOWEST,1), "
+                      "(0,MAX), (0,1), (MAX,LOWEST), (MAX,MAX) (infinite on some axes only, one bound at the end of the range, canonically inverted on one axis) is run through "
+                      "isInfinite/isEmpty/hasVolume/intersects(point)/intersects(box)/extendBy and, where the arithmetic is defined, size/center/majorAxis against per-axis predicates "
+                      "on exact wide values; extendBy(point)/extendBy(box) histories are explored breadth-first on the real objects until no new state appears (so all history lengths "
+                      "are covered for the alphabet); clip/closestPoint* are compared with the exact nearest point; transform/affineTransform (4 overloads, out-parameter forms "
+                      "pre-filled, float/double boxes and Box3i/Box3s) are compared with the exact images of the 8 corners on non-negative and on signed (negative / zero-straddling) "
+                      "boxes, for affine matrices and for projective matrices with w>0, w<0 and mixed-sign w on the corners.",
+        "level_note": "Bounded scope: coordinates are small integers or the ends of the element type's range (exactly representable in every element type), so rounding inside Box "
+                      "itself is exercised only where size() of a partially infinite float box overflows to +inf and where center() rounds 1+LOWEST; transforms are checked for integer "
+                      "affine matrices (exact, also for integer boxes) and small-integer projective matrices with w != 0 on all corners of the box (2 ulp; 'contains the image of every "
+                      "point' only where w has one sign on the box); integer boxes under projective matrices only where the corner images are integers (w = +-2). Integer boxes with "
+                      "non-integer matrices are outside the statement (the library truncates the matrix entries to S). size()/majorAxis() of an integer box whose max-min is not "
+                      "representable and center() of an empty box are never called (undefined). extendBy minimality is asserted from default/makeEmpty/non-inverted boxes with "
+                      "non-inverted or canonical-empty arguments only. For half the ends of the range are written as bit patterns (0x7bff/0xfbff), not read from numeric_limits<half>.",
+        "deadline": {"quick": 240, "thorough": 850},
+        "rule": "exhaustive: all 16^D (min,max) boxes x all 6^D points, all ordered box pairs, all 6^D extreme-bound boxes x 6^D extreme points and all their ordered pairs and extendBy "
+                "steps, BFS over extendBy to a fixpoint, all listed matrices x 1000 (2000 for integer boxes) boxes; non-trivial = by a "
+                "predicate on the input the box is inverted / flat / a single point / canonical empty or infinite / infinite on some axes only / has only min or only max at the end of "
+                "the range / is canonically inverted on some axes only, size() is not representable, the pair has an inverted operand or touches only on the boundary or "
+                "overlaps, majorAxis has a tie, the extendBy step starts from the empty set / lowers min / raises max / moves a bound to LOWEST or MAX / has an empty argument, the "
+                "point is outside / on the boundary (clip, closestPointOnBox: strictly inside, on the surface, equidistant faces, empty box), the matrix block is zero/sparse/full or "
+                "has a negative entry (Arvo's a>=b branch), the box has a negative coordinate / straddles zero / is an integer box, the matrix is projective with w positive / "
+                "negative / of mixed sign on the corners, the input box is empty or infinite, the element type is half ('.generic' classes excluded)",
         "assumptions": ["lattice coordinates are small integers, exactly representable in every element type",
-                        "projective matrices are restricted to w > 0 on all corners of the box"],
+                        "projective matrices are restricted to w != 0 on all corners of the box (the corner images do not exist otherwise)",
+                        "integer boxes (Box3i/Box3s) are transformed by integer-valued matrices only"],
     }
